@@ -14,7 +14,7 @@ import (
 // decided against a reference in package pattern; here it is the primitive
 // (anchored match at a position) of the reference gsub.
 
-var vhGsubPatterns = [10]string{"a", "a*", "%w", "%w*", "", "b*", "%s*", "(a)(b*)", "a-", "."}
+var vhGsubPatterns = [12]string{"a", "a*", "%w", "%w*", "", "b*", "%s*", "(a)(b*)", "a-", ".", "%f[ab]a*", "%f[%w]b?"}
 var vhGsubRepls = [6]string{"", "x", "%0%0", "%1", "[%1]", "%%"}
 
 func specExpand(repl string, s string, caps []pattern.Capture) string {
@@ -66,16 +66,17 @@ func specGsub(s string, pat *pattern.Pattern, repl string, maxN int64) (string, 
 
 func VerifH_C15_gsub_vs_reference() {
 	_, t := vhRT()
+	ptnChoice := verifChoose("ptn", 12)
+	ptn := vhGsubPatterns[ptnChoice]
 	maxLen := 2
-	if verifTier() == 1 {
-		maxLen = 3
+	if verifTier() == 1 || ptnChoice >= 10 {
+		maxLen = 3 // the frontier patterns need a character outside the set between two matches
 	}
 	n := verifChoose("s_len", maxLen+1)
 	s := nondetString("s", n)
 	for i := 0; i < n; i++ {
 		verifAssume(s[i] == 'a' || s[i] == 'b' || s[i] == ' ')
 	}
-	ptn := vhGsubPatterns[verifChoose("ptn", 10)]
 	repl := vhGsubRepls[verifChoose("repl", 6)]
 	maxN := int64(verifChoose("max", 4)) - 1 // -1: no limit
 	_, err := pattern.New(ptn)
@@ -107,7 +108,7 @@ func VerifH_C15_gsub_vs_reference() {
 			ptnIdx = i
 		}
 	}
-	canMatchEmpty := ptnIdx == 1 || ptnIdx == 3 || ptnIdx == 4 || ptnIdx == 5 || ptnIdx == 6 || ptnIdx == 8
+	canMatchEmpty := ptnIdx == 1 || ptnIdx == 3 || ptnIdx == 4 || ptnIdx == 5 || ptnIdx == 6 || ptnIdx == 8 || ptnIdx >= 10
 	// known finding C15-gsub-counts-skipped-empty-matches: with a pattern that
 	// can match the empty string golua also counts the empty matches it skips
 	// (an empty match right after the previous match); the count can exceed the
